@@ -240,15 +240,15 @@ func addWireCase(c *core.Ctx, wc *wireCase, fam string) bool {
 		return false
 	}
 	wc.Kind = "wire"
-	ob, fails := runWire(wc)
+	ob, fails := pWire(wc)
 	c.OracleCheck()
 	for _, f := range fails {
 		c.OracleFail(f.key, f.desc, wc)
-		if f.key == "alloc" || f.key == "panic" {
+		if f.key == "alloc" || f.key == "panic" || f.key == "crash" {
 			poisoned[fam] = true
 		}
 	}
-	if aborted {
+	if aborted || ob.out.Cls == 8 {
 		return false
 	}
 	c.Count(fmt.Sprintf("wire-%s-cls%d", wc.Op, ob.out.Cls))
@@ -670,41 +670,21 @@ func addBlobCase(c *core.Ctx, b []byte) {
 		return
 	}
 	bc := &textCase{Kind: "text", Fn: "blob", In: b}
-	s, out, fails := runBlob(b)
+	bo, out, fails := pBlob(bc)
 	c.OracleCheck()
 	for _, f := range fails {
 		c.OracleFail(f.key, f.desc, bc)
 	}
-	if out.Cls == 9 || out.TimedOut {
+	if out == nil || out.Cls == 9 || out.TimedOut {
 		return
 	}
 	c.Count(fmt.Sprintf("blob-cls%d", out.Cls))
-	if out.Cls != 0 || s == nil {
+	if out.Cls != 0 || bo == nil {
 		c.AddCase(fmt.Sprintf("CBlob %s false 0 [] [] [] 0 0 [] [] []", bytesTerm(b)), bc)
 		return
 	}
-	sn := s.VerifSnapshot()
-	var flags uint64
-	if sn.Encrypted {
-		flags |= uint64(stream.VerifCsFlagEncrypted)
-	}
-	if sn.Authenticated {
-		flags |= uint64(stream.VerifCsFlagAuthenticated)
-	}
-	if sn.FinishedSendAAD {
-		flags |= uint64(stream.VerifCsFlagFinSendAAD)
-	}
-	if sn.FinishedRecvAAD {
-		flags |= uint64(stream.VerifCsFlagFinRecvAAD)
-	}
-	if sn.SendDigestWritten {
-		flags |= uint64(stream.VerifCsFlagSendDgWritten)
-	}
-	if sn.RecvDigestWritten {
-		flags |= uint64(stream.VerifCsFlagRecvDgWritten)
-	}
 	c.Nontrivial(fmt.Sprintf("blob|%x", b))
 	// the model reports the raw flags byte; compare on the six defined bits
-	c.AddCase(fmt.Sprintf("CBlob %s true %d %s %s %s %d %d %s %s %s", bytesTerm(b), flags, core.Hex(sn.Key), core.Hex(sn.EncryptIV[:]), core.Hex(sn.DecryptIV[:]),
-		sn.EncryptCounter, sn.DecryptCounter, core.Hex(sn.FinalSendDigest), core.Hex(sn.FinalRecvDigest), core.Hex([]byte(s.GetPeerAddr()))), bc)
+	c.AddCase(fmt.Sprintf("CBlob %s true %d %s %s %s %d %d %s %s %s", bytesTerm(b), bo.Flags, core.Hex(bo.Key), core.Hex(bo.EIV), core.Hex(bo.DIV),
+		bo.ECtr, bo.DCtr, core.Hex(bo.SD), core.Hex(bo.RD), core.Hex(bo.Peer)), bc)
 }
